@@ -229,16 +229,16 @@ ZONE_SPECS = {
         "entry": "proof { assert(Seq::<Label>::empty() + apex.labels@ =~= apex.labels@); }"},
     "Zone::relative_domain": {"props": ["C02"], "mode": "assume", "depub": True, "contract": """    ensures r is Some <==> is_suffix(self.apex.labels@, name.labels@),
         r is Some ==> r->Some_0@ + self.apex.labels@ == name.labels@,"""},
-    "Zone::actual_ttl": {"props": ["C02"], "depub": True, "rewrites": ["R2d"], "contract": """    ensures r >= ttl, self.soa is Some ==> r >= self.soa->Some_0.minimum, self.soa is None ==> r == ttl,
-        self.soa is Some ==> (r == ttl || r == self.soa->Some_0.minimum), // [C02:ttl_raised_to_the_soa_minimum_only]"""},
-    "Zone::insert": {"props": ["C02"], "depub": True, "contract": """    requires zone_wf(*old(self)), name.wf(),
+    "Zone::actual_ttl": {"props": ["C02", "C11"], "depub": True, "rewrites": ["R2d"], "contract": """    ensures r >= ttl, self.soa is Some ==> r >= self.soa->Some_0.minimum, self.soa is None ==> r == ttl,
+        self.soa is Some ==> (r == ttl || r == self.soa->Some_0.minimum), // [C02,C11:ttl_raised_to_the_soa_minimum_only]"""},
+    "Zone::insert": {"props": ["C02", "C11"], "depub": True, "contract": """    requires zone_wf(*old(self)), name.wf(),
     ensures zone_wf(*final(self)), final(self).apex == old(self).apex, final(self).soa == old(self).soa, // [C02:builders_establish_the_tree_invariant]
-        is_suffix(old(self).apex.labels@, name.labels@) ==> stores_one_more(old(self).records, final(self).records, false, rel_of(old(self).apex, *name), rtype_with_data, eff_ttl(old(self).soa, ttl)), // [C02:a_record_put_into_a_zone_is_stored_under_its_name_with_the_ttl_raised_to_the_soa_minimum_and_nothing_else_changes]
+        is_suffix(old(self).apex.labels@, name.labels@) ==> stores_one_more(old(self).records, final(self).records, false, rel_of(old(self).apex, *name), rtype_with_data, eff_ttl(old(self).soa, ttl)), // [C02,C11:a_record_put_into_a_zone_is_stored_under_its_name_with_the_ttl_raised_to_the_soa_minimum_and_nothing_else_changes]
         !is_suffix(old(self).apex.labels@, name.labels@) ==> final(self).records == old(self).records, // [C02:a_record_outside_the_zone_changes_nothing]""",
         "anchors": [{"after": "if let Some(relative_domain) = self.relative_domain(name) {", "proof": "proof { assert(relative_domain@ =~= (relative_domain@ + self.apex.labels@).subrange(0, relative_domain@.len() as int)); }"}]},
-    "Zone::insert_wildcard": {"props": ["C02"], "depub": True, "contract": """    requires zone_wf(*old(self)), name.wf(),
+    "Zone::insert_wildcard": {"props": ["C02", "C11"], "depub": True, "contract": """    requires zone_wf(*old(self)), name.wf(),
     ensures zone_wf(*final(self)), final(self).apex == old(self).apex, final(self).soa == old(self).soa, // [C02:builders_establish_the_tree_invariant]
-        is_suffix(old(self).apex.labels@, name.labels@) ==> stores_one_more(old(self).records, final(self).records, true, rel_of(old(self).apex, *name), rtype_with_data, eff_ttl(old(self).soa, ttl)), // [C02:a_record_put_into_a_zone_is_stored_under_its_name_with_the_ttl_raised_to_the_soa_minimum_and_nothing_else_changes]
+        is_suffix(old(self).apex.labels@, name.labels@) ==> stores_one_more(old(self).records, final(self).records, true, rel_of(old(self).apex, *name), rtype_with_data, eff_ttl(old(self).soa, ttl)), // [C02,C11:a_record_put_into_a_zone_is_stored_under_its_name_with_the_ttl_raised_to_the_soa_minimum_and_nothing_else_changes]
         !is_suffix(old(self).apex.labels@, name.labels@) ==> final(self).records == old(self).records, // [C02:a_record_outside_the_zone_changes_nothing]""",
         "anchors": [{"after": "if let Some(relative_domain) = self.relative_domain(name) {", "proof": "proof { assert(relative_domain@ =~= (relative_domain@ + self.apex.labels@).subrange(0, relative_domain@.len() as int)); }"}]},
 }
